@@ -710,8 +710,8 @@ impl EliasFanoBuilder {
     /// Creates a builder for an [`EliasFano`] containing
     /// `n` numbers smaller than or equal to `u`.
     pub fn new(n: usize, u: usize) -> Self {
-        let l = if u >= n {
-            (u as f64 / n as f64).log2().floor() as usize
+        let l = if u >= n && u > 0 {
+            (u / n.max(1)).ilog2() as usize
         } else {
             0
         };
@@ -871,8 +871,8 @@ impl EliasFanoConcurrentBuilder {
     /// Creates a concurrent builder for a sequence containing `n` nonnegative
     /// numbers smaller than or equal to `u`.
     pub fn new(n: usize, u: usize) -> Self {
-        let l = if u >= n {
-            (u as f64 / n as f64).log2().floor() as usize
+        let l = if u >= n && u > 0 {
+            (u / n.max(1)).ilog2() as usize
         } else {
             0
         };
